@@ -3200,7 +3200,7 @@ def aam(ir, instr, src):
         newEAX = m2_expr.ExprCompose(
             m2_expr.ExprOp("umod", tempAL, src),
             m2_expr.ExprOp("udiv", tempAL, src),
-            mRAX[instr.mode][16:]
+            *([mRAX[instr.mode][16:]] if instr.mode > 16 else [])
         )
         e += [m2_expr.ExprAssign(mRAX[instr.mode], newEAX)]
         e += update_flag_arith(newEAX)
@@ -3221,7 +3221,7 @@ def aad(_, instr, src):
     tempAH = mRAX[instr.mode][8:16]
     newEAX = m2_expr.ExprCompose((tempAL + (tempAH * src)) & m2_expr.ExprInt(0xFF, 8),
                                  m2_expr.ExprInt(0, 8),
-                                 mRAX[instr.mode][16:])
+                                 *([mRAX[instr.mode][16:]] if instr.mode > 16 else []))
     e += [m2_expr.ExprAssign(mRAX[instr.mode], newEAX)]
     e += update_flag_arith(newEAX)
     e.append(m2_expr.ExprAssign(af, m2_expr.ExprInt(0, 1)))
